@@ -342,6 +342,62 @@ def special_cases(exe, w):
     return v, n
 
 
+def stream_cases(exe, w, rnd, thorough):
+    """Inputs that are not regular files: a FIFO fed in bursts (data arrives in several short reads),
+    a seekable sysfs file that cannot be mapped. With and without --no-mmap, several modes."""
+    import threading
+    import time
+    v = []
+    n = 0
+    classes = set()
+    reps = 6 if thorough else 2
+    for r in range(reps):
+        for flags in ([], ["--no-mmap"]):
+            fifo = os.path.join(w.dir, "fifo_%d_%d" % (r, len(flags)))
+            os.mkfifo(fifo)
+            payload = rnd.randbytes(rnd.choice([70000, 150001, 300000]))
+            bursts = rnd.choice([2, 3, 5])
+
+            def writer():
+                with open(fifo, "wb", buffering=0) as f:
+                    step = len(payload) // bursts + 1
+                    for i in range(0, len(payload), step):
+                        f.write(payload[i:i + step])
+                        time.sleep(0.15)
+
+            t = threading.Thread(target=writer)
+            t.start()
+            mode_args, mode, key, stdin = [], "hash", None, b""
+            if r % 2 == 1:
+                key = w.keys[0]
+                mode_args, mode, stdin = ["--keyed"], "keyed", key
+            length, seek = (80, 7) if r % 2 else (32, 0)
+            argv = mode_args + flags + ["--length", str(length), "--seek", str(seek), "--no-names", os.path.basename(fifo)]
+            rc, out, err = run_b3sum(exe, argv, w.dir, stdin, timeout=120)
+            t.join(timeout=30)
+            n += 1
+            classes.add("fifo/%s/%s" % (mode, "no-mmap" if flags else "mmap-path"))
+            want = b3spec.xof(payload, mode=mode, key=key, seek=seek, length=length).hex().encode() + b"\n"
+            if rc != 0 or out != want:
+                v.append(("C12/hash/stream-input-mismatch", "b3sum %s on a FIFO carrying %d bytes in %d bursts: exit %s, printed %r, the bytes hash to %r" % (argv, len(payload), bursts, rc, out[:70], want[:70])))
+            os.unlink(fifo)
+    cand = "/sys/kernel/btf/vmlinux"
+    try:
+        a = open(cand, "rb").read()
+        b = open(cand, "rb").read()
+    except OSError:
+        a = b = None
+    if a and a == b and 16384 <= len(a) <= (6 << 20):
+        want = b3spec.xof(a).hex().encode() + b"\n"
+        for flags in ([], ["--no-mmap"], ["--num-threads", "2"]):
+            rc, out, err = run_b3sum(exe, flags + ["--no-names", cand], w.dir)
+            n += 1
+            classes.add("sysfs/%s" % ("-".join(flags) or "default"))
+            if rc != 0 or out != want:
+                v.append(("C12/hash/stream-input-mismatch", "b3sum %s %s (%d bytes, seekable, not mappable): exit %s, printed %r, the bytes hash to %r" % (flags, cand, len(a), rc, out[:70], want[:70])))
+    return v, n, classes
+
+
 def run(exe, seed, thorough, scale=1.0):
     w = World(seed, thorough)
     try:
@@ -376,6 +432,11 @@ def run(exe, seed, thorough, scale=1.0):
         sv, sn = special_cases(exe, w)
         for sig, detail in sv:
             violations.append((sig, detail, -1))
+        tv, tn, tclasses = stream_cases(exe, w, rnd, thorough)
+        for sig, detail in tv:
+            violations.append((sig, detail, -2))
+        sn += tn
+        classes |= tclasses
         samples = []
         for c in cases[:2] + cases[n_hash:n_hash + 2]:
             s = {"kind": c["kind"], "argv": c["argv"], "class": c["class"]}
